@@ -151,6 +151,72 @@ Section InDomain.
   Qed.
 End InDomain.
 
+(* ------------------------------------------------------------------ the other orientation
+   The constructors also accept an interval given in DESCENDING order (min argument a greater than
+   max argument b); the same formulas then lie in [b, a]. *)
+Record node_env_desc (venv penv : nat -> R) (n idx : nat) : Prop := {
+  nd_ab : penv p_b < penv p_a;
+  nd_pi : penv p_pi = PI;
+  nd_n : penv p_n = INR n;
+  nd_i : venv v_i = INR idx;
+  nd_idx : (idx < n)%nat;
+  nd_u : 0 <= venv v_u0 < 1
+}.
+
+Section InDomainDesc.
+  Variables (venv penv : nat -> R) (fenv : nat -> list nat -> list R -> R) (n idx : nat).
+  Hypothesis Henv : node_env_desc venv penv n idx.
+
+  Lemma nodes_in_domain_det_desc t g : In (t, g) det_terms -> (g = true -> 0 < penv p_b) -> size_ok t n ->
+    penv p_b <= eval venv penv fenv t <= penv p_a.
+  Proof.
+    destruct Henv as [Hab Hpi Hn Hi Hidx Hu].
+    intros Hin Hpos Hsz. expose Hin Hsz.
+    all: cbn [eval]; cbv [v_i v_u0 p_a p_b p_n p_pi] in *; try rewrite Hpi; try rewrite Hn; try rewrite Hi.
+    all: set (a := penv 0%nat) in *; set (b := penv 1%nat) in *; set (u := venv 1%nat) in *.
+    all: first
+      [ solve [nra]
+      | solve [match goal with |- context [cos ?x] => pose proof (COS_bound x); set (c := cos x) in *; nra end]
+      | solve [with_q n idx Hidx Hsz; nra]
+      | (* log spacing *)
+        solve [ assert (Hb : 0 < b) by (apply Hpos; reflexivity); assert (Ha : 0 < a) by lra;
+                with_q n idx Hidx Hsz; pose proof ln10_pos as HL;
+                assert (Hl : ln b < ln a) by (apply ln_increasing; assumption);
+                apply (exp_between _ b a Hb Ha);
+                match goal with |- _ <= ?E <= _ => replace E with (ln a + (ln b - ln a) * q) by (field; lra) end; nra ]
+      | (* exp spacing *)
+        solve [ with_q n idx Hidx Hsz; apply ln_between; [apply ln10_pos|];
+                assert (He : exp (b * ln 10) < exp (a * ln 10)) by (apply exp_increasing; pose proof ln10_pos; nra);
+                nra ]
+      | (* latin hypercube *)
+        solve [ replace (INR n + 1 - 1) with (INR n) by ring;
+                assert (HN : 1 <= INR n) by (change 1 with (INR 1); apply le_INR; lia);
+                assert (HI : INR idx + 1 <= INR n) by (rewrite <- S_INR; apply le_INR; lia);
+                pose proof (pos_INR idx) as HI0;
+                set (W := (a - b) / INR n);
+                assert (HW : W * INR n = a - b) by (unfold W; field; lra);
+                assert (HW0 : 0 < W) by (unfold W; apply Rdiv_lt_0_compat; lra);
+                match goal with |- _ <= ?E <= _ => replace E with (a - W * (u + INR idx)) by (unfold W; field; lra) end;
+                nra ] ].
+  Qed.
+  Lemma nodes_defined_det_desc t g : In (t, g) det_terms -> (g = true -> 0 < penv p_b) -> size_ok t n ->
+    defined venv penv fenv t.
+  Proof.
+    destruct Henv as [Hab Hpi Hn Hi Hidx Hu].
+    intros Hin Hpos Hsz. expose Hin Hsz.
+    all: cbn [defined eval]; cbv [v_i v_u0 p_a p_b p_n p_pi] in *; try rewrite Hpi; try rewrite Hn; try rewrite Hi.
+    all: set (a := penv 0%nat) in *; set (b := penv 1%nat) in *; set (u := venv 1%nat) in *.
+    all: pose proof ln10_pos as HL.
+    all: assert (HN1 : 1 <= INR n) by (change 1 with (INR 1); apply le_INR; destruct (has_nm1 (ECst 0)); lia).
+    all: try (assert (HN2 : 2 <= INR n) by (change 2 with (INR 2); apply le_INR; lia)).
+    all: try (assert (Hb : 0 < b) by (apply Hpos; reflexivity)).
+    all: repeat split; auto; try lra.
+    all: try (with_q n idx Hidx Hsz;
+              assert (He : exp (b * ln 10) < exp (a * ln 10)) by (apply exp_increasing; nra);
+              pose proof (exp_pos (b * ln 10)); nra).
+  Qed.
+End InDomainDesc.
+
 (* non-vacuity: the environment is satisfiable and the size conditions are the expected ones *)
 Example node_env_satisfiable :
   node_env (fun v => if Nat.eqb v v_i then INR 1 else 0) (fun p => if Nat.eqb p p_b then 1 else if Nat.eqb p p_n then INR 3 else if Nat.eqb p p_pi then PI else 0) 3 1.
@@ -159,3 +225,7 @@ Proof. constructor; cbn; try reflexivity; try lra; try lia. Qed.
 Example size_ok_examples :
   forallb (fun p => has_nm1 (fst p)) det_terms = false /\ existsb (fun p => has_nm1 (fst p)) det_terms = true.
 Proof. vm_compute. split; reflexivity. Qed.
+
+Example node_env_desc_satisfiable :
+  node_env_desc (fun v => if Nat.eqb v v_i then INR 1 else 0) (fun p => if Nat.eqb p p_a then 1 else if Nat.eqb p p_n then INR 3 else if Nat.eqb p p_pi then PI else 0) 3 1.
+Proof. constructor; cbn; try reflexivity; try lra; try lia. Qed.
